@@ -696,13 +696,18 @@ fn check_run(
     } else {
         Some(sr.unwrap_or_else(|| stepwise(&wi.w, script, gas, false)))
     };
+    if std::env::var("C28_TIMING").is_ok() { eprintln!("TIMING stepwise done at {:?}", std::time::SystemTime::now()); }
     let expected = sr.as_ref().and_then(|s| s.class());
     if let Some(s) = &sr {
         v.extend(s.monitor.iter().cloned());
         acc.max_steps = acc.max_steps.max(s.steps);
     }
+    let t0 = std::time::Instant::now();
     let ir = interp_run(&wi.w, script, gas);
+    let t1 = std::time::Instant::now();
     let (cr, after) = client_run(&wi.w, script, gas);
+    let t2 = std::time::Instant::now();
+    if std::env::var("C28_TIMING").is_ok() { eprintln!("TIMING interp {:?} client {:?}", t1-t0, t2-t1); }
     acc.evals += 1;
 
     let label;
@@ -767,6 +772,7 @@ fn check_run(
             label = format!("incomplete|{}", e.chars().take(48).collect::<String>());
         }
     }
+    if std::env::var("C28_TIMING").is_ok() { eprintln!("TIMING oracle {:?}", t2.elapsed()); }
     *acc.outcomes.entry(label).or_insert(0) += 1;
     if !v.is_empty() {
         let c = case();
@@ -950,6 +956,7 @@ fn explore(ctx: &Ctx) {
         }
     }
     let limit_programs = tot.programs;
+    let t_limit = ctx.elapsed();
 
     // ---- SEQ
     {
@@ -1006,6 +1013,7 @@ fn explore(ctx: &Ctx) {
         }
         ctx.set("seq_programs", json!({"per_world": per_world, "total": total, "run": tot.programs - limit_programs}));
     }
+    ctx.set("phase_wall_s", json!({"empty+limit": t_limit, "seq": ctx.elapsed() - t_limit}));
     ctx.set("programs", json!(tot.programs));
     ctx.set("fault_point_runs", json!(tot.fault_points));
     ctx.set("max_steps_of_one_run", json!(tot.max_steps));
